@@ -223,7 +223,7 @@ func c01Check(env *core.Env, cc core.Case) core.Verdict {
 	p := c.Prog
 	root := emptyRoot(env)
 	defer rmCase(root)
-	if err := raTree(root, &p.Files, crsToolchainYAML); err != nil {
+	if err := raTree(root, &p.Files, crsYAMLFor(p.Main)); err != nil {
 		return core.Incon("cannot write tree: %v", err)
 	}
 	v := core.Verdict{Status: core.Held, Features: append([]string{"lane:" + p.Lane}, p.Features...), Counts: map[string]int{}}
